@@ -25,11 +25,9 @@ import (
 func c13Historical(c *Ctx) {
 	K := "opchild/keeper.Keeper"
 	c.Rule("C13.R9", func() {
-		c.writersTable("C13.R9", K, "HistoricalInfos", setOf("Set"), []string{"(opchild/keeper.Keeper).TrackHistoricalInfo"})
-		c.writersTable("C13.R9", K, "HistoricalInfos", setOf("Remove", "Clear"), []string{"(opchild/keeper.Keeper).TrackHistoricalInfo"})
-		callersTable(c, "C13.R9", c.Method(childKeeper, "Keeper", "SetHistoricalInfo"), []string{"(opchild/keeper.Keeper).TrackHistoricalInfo"})
-		callersTable(c, "C13.R9", c.Method(childKeeper, "Keeper", "DeleteHistoricalInfo"), []string{"(opchild/keeper.Keeper).TrackHistoricalInfo"})
-		callersTable(c, "C13.R9", c.Method(childKeeper, "Keeper", "TrackHistoricalInfo"), []string{"opchild.BeginBlocker"})
+		c.writersTable("C13.R9", K, "HistoricalInfos", setOf("Set"), []string{"(opchild.AppModule).BeginBlock"})
+		c.writersTable("C13.R9", K, "HistoricalInfos", setOf("Remove", "Clear"), []string{"(opchild.AppModule).BeginBlock"})
+		callersTable(c, "C13.R9", c.Method(childKeeper, "Keeper", "TrackHistoricalInfo"), []string{"(opchild.AppModule).BeginBlock"})
 
 		fn := c.Method(childKeeper, "Keeper", "TrackHistoricalInfo")
 		H := "(sdk.Context).BlockHeight(sdk.UnwrapSDKContext(ctx))"
@@ -158,10 +156,12 @@ func c13Historical(c *Ctx) {
 	c.Rule("C13.R10", func() {
 		o := c.Ob("C13.R10", "Validator.ConsPower is written only at the tabled sites with the constants 1 (NewValidator) and 0 (RemoveValidator, ChangeExecutor): a stored power is never negative and updates told to consensus are 0 or positive")
 		allowed := map[string]string{
-			"opchild/types.NewValidator":                 "1",
-			"(opchild/keeper.MsgServer).RemoveValidator": "0",
-			"(opchild/keeper.Keeper).ChangeExecutor$1":   "0",
+			"(opchild/keeper.MsgServer).AddValidator":            "1", // via NewValidator
+			"(opchild/keeper.Keeper).RegisterExecutorChangePlan": "1", // via NewValidator (plan validator)
+			"(opchild/keeper.MsgServer).RemoveValidator":         "0",
+			"(opchild.AppModule).EndBlock":                       "0", // ChangeExecutor zeroes every stored power
 		}
+		eff := c.W.BuildEffects()
 		seen := map[string]bool{}
 		for _, f := range c.W.Funcs {
 			for _, b := range f.Blocks {
@@ -178,20 +178,23 @@ func c13Historical(c *Ctx) {
 						continue
 					}
 					o.Sites++
-					name := fnShort(f)
-					want, ok := allowed[name]
 					k, isConst := st.Val.(*ssa.Const)
 					got := strings.TrimSpace(st.Val.String())
 					if isConst && k.Value != nil {
 						got = k.Value.ExactString()
 					}
-					o.Note(name + ": ConsPower = " + got + " @" + c.W.Pos(st.Pos()))
-					if !ok {
-						o.Fail(c.W.Pos(st.Pos()), "ConsPower written in "+name+" (not in the table)", nil)
-					} else if !isConst || got != want {
-						o.Fail(c.W.Pos(st.Pos()), "ConsPower = "+got+" in "+name+", want the constant "+want, nil)
+					// the site belongs to its owners (closures and private helpers are transparent)
+					for _, of := range eff.Owners(f) {
+						name := fnShort(of)
+						want, ok := allowed[name]
+						o.Note(name + ": ConsPower = " + got + " @" + c.W.Pos(st.Pos()))
+						if !ok {
+							o.Fail(c.W.Pos(st.Pos()), "ConsPower written in "+name+" (not in the table)", nil)
+						} else if !isConst || got != want {
+							o.Fail(c.W.Pos(st.Pos()), "ConsPower = "+got+" in "+name+", want the constant "+want, nil)
+						}
+						seen[name] = true
 					}
-					seen[name] = true
 				}
 			}
 		}
